@@ -41,6 +41,7 @@ type localCall struct {
 
 type run struct {
 	s        *simrt.Sched
+	capsBias bool           // C07: workload biased towards capability traffic
 	giveUp   *theirQuestion // set by the idle hook: the peer stops waiting for the Conn's answer to this reflected call
 	prop     string
 	opt      worker.Options
@@ -281,15 +282,16 @@ func (r *run) peerTask() {
 		}
 		if r.peerBudget > 0 && !r.closed {
 			moves = append(moves, "bootstrap", "call", "call", "call", "finish", "release")
-			if len(p.order) > 0 && p.moveDisembargoPossible() {
-				moves = append(moves, "disembargo", "disembargo", "disembargo", "disembargo")
-			}
 			if r.hostileBudget > 0 {
 				moves = append(moves, "hostile", "hostile")
 			}
 		}
 		if r.pendingTheirQ() {
 			moves = append(moves, "return", "return")
+		}
+		if !r.closed && !r.hostile && p.moveDisembargoPossible() {
+			// (not tied to the message budget: by the time a Return has come back the budget is usually spent)
+			moves = append(moves, "disembargo", "disembargo")
 		}
 		if len(moves) == 0 {
 			simrt.YieldAt("peer-idle")
@@ -322,9 +324,7 @@ func (r *run) peerTask() {
 		case "return":
 			p.moveReturn()
 		case "disembargo":
-			if p.moveDisembargo() {
-				r.peerBudget--
-			}
+			p.moveDisembargo()
 		case "hostile":
 			r.hostileBudget--
 			r.peerBudget--
@@ -336,7 +336,7 @@ func (r *run) peerTask() {
 }
 
 func (r *run) peerHasMove() bool {
-	return (r.peerBudget > 0 && !r.closed) || r.pendingTheirQ()
+	return (r.peerBudget > 0 && !r.closed) || r.pendingTheirQ() || (!r.closed && !r.hostile && r.peer.moveDisembargoPossible())
 }
 
 func (r *run) pendingTheirQ() bool {
@@ -411,7 +411,11 @@ func (r *run) callerTask(id int, nops int) {
 			lc.ctx, lc.cancel = context.WithCancel(ctx)
 			r.locals[lc.token] = lc
 			ps := payloadSpec{token: lc.token}
-			switch s.Choice("caller-param-cap", 4) {
+			cpc := s.Choice("caller-param-cap", 4)
+			if r.capsBias && cpc >= 2 {
+				cpc -= 2
+			}
+			switch cpc {
 			case 0:
 				ps.cap = r.apps[s.Choice("caller-app", len(r.apps))].client // a local capability: becomes an export
 			case 1:
@@ -569,11 +573,15 @@ func (Engine) Run(t *testing.T, tape *simrt.Tape, opt worker.Options) *worker.Ou
 		}
 	}
 	if topo == "B" {
-		return singleB(t, tape, opt)
+		oc, _ := singleB(t, tape, opt, faultCase{})
+		return oc
 	}
 	oc, _ := single(t, tape, opt, faultCase{})
 	if topo != "" {
 		oc.ReplayParams = map[string]string{"topo": topo}
+		if opt.Property == "C07" {
+			oc.ReplayParams["bias"] = "caps"
+		}
 	}
 	return oc
 }
@@ -581,6 +589,9 @@ func (Engine) Run(t *testing.T, tape *simrt.Tape, opt worker.Options) *worker.Ou
 // single executes one simulated session.
 func single(t *testing.T, tape *simrt.Tape, opt worker.Options, fc faultCase) (*worker.Outcome, *run) {
 	r := &run{prop: opt.Property, opt: opt, appCalls: map[uint64]*appCall{}, sentTo: map[string][]uint64{}, locals: map[uint64]*localCall{}, fault: fc}
+	// C07 biases the workload towards capability traffic; tapes recorded before the bias existed
+	// carry no "bias" parameter and keep their meaning
+	r.capsBias = opt.Property == "C07" && (opt.Params["bias"] == "caps" || (opt.Params["topo"] == "" && !tape.Replaying()))
 	if fc.kind != "" {
 		r.faultsPlanned = 1
 	}
@@ -610,15 +621,41 @@ func single(t *testing.T, tape *simrt.Tape, opt worker.Options, fc faultCase) (*
 // operations and steps; stage 2 re-runs the recorded scenario once per (operation index x fault
 // kind) and per sampled step for cancellation and Close.
 func runSweep(t *testing.T, tape *simrt.Tape, opt worker.Options) *worker.Outcome {
+	// One scenario in five joins two real Conns (topology B) with the fault on one side's transport.
+	// The draw is the first on the tape; tapes recorded before carry no "topo" parameter.
+	// (the tape stored for one sweep case starts after that draw)
+	topo := opt.Params["topo"]
+	drew := false
+	switch {
+	case opt.Params["fault"] != "":
+	case topo != "":
+		tape.Choice("topology", 5)
+		drew = true
+	case !tape.Replaying():
+		topo = "A"
+		if tape.Choice("topology", 5) == 0 {
+			topo = "B"
+		}
+		drew = true
+	}
+	if topo == "B" {
+		return runSweepB(t, tape, opt, drew)
+	}
 	if f := opt.Params["fault"]; f != "" {
 		oc, _ := single(t, tape, opt, parseFault(f)) // replay of one sweep case
 		return oc
 	}
 	base, r0 := single(t, tape, opt, faultCase{})
+	if topo != "" {
+		base.ReplayParams = map[string]string{"topo": topo}
+	}
 	if base.Verdict != nil || r0.tr == nil {
 		return base
 	}
 	recs := append([]simrt.Rec(nil), tape.Records()...)
+	if drew {
+		recs = recs[1:]
+	}
 	var cases []faultCase
 	for i := 1; i <= r0.tr.nNew; i++ {
 		cases = append(cases, faultCase{"newmsg_err", i})
@@ -681,6 +718,9 @@ func runSweep(t *testing.T, tape *simrt.Tape, opt worker.Options) *worker.Outcom
 		if oc.Verdict != nil {
 			oc.ReplayTape = recs
 			oc.ReplayParams = map[string]string{"fault": fc.String()}
+			if topo != "" {
+				oc.ReplayParams["topo"] = topo
+			}
 			oc.Pattern = oc.Pattern + " fault=" + fc.kind
 			oc.Sample = map[string]interface{}{"scenario": r0.desc, "fault": fc.String()}
 			return oc
@@ -1067,4 +1107,87 @@ func (r *run) afterClose() {
 			last, lastTok = i, tk
 		}
 	}
+}
+
+// runSweepB: the per-operation sweep over a two-Conn scenario; the fault hits side L's transport
+// (or L is closed / every call is cancelled at a step), side R only sees the consequences.
+func runSweepB(t *testing.T, tape *simrt.Tape, opt worker.Options, drew bool) *worker.Outcome {
+	if f := opt.Params["fault"]; f != "" {
+		oc, _ := singleB(t, tape, opt, parseFault(f))
+		oc.ReplayParams = map[string]string{"topo": "B", "fault": f}
+		return oc
+	}
+	base, b0 := singleB(t, tape, opt, faultCase{})
+	if base.Verdict != nil || b0.side[0] == nil || b0.side[0].tr == nil {
+		return base
+	}
+	recs := append([]simrt.Rec(nil), tape.Records()...)
+	if drew {
+		recs = recs[1:]
+	}
+	tr := b0.side[0].tr
+	var cases []faultCase
+	for i := 1; i <= tr.nNew; i++ {
+		cases = append(cases, faultCase{"newmsg_err", i})
+	}
+	for i := 1; i <= tr.nSend; i++ {
+		cases = append(cases, faultCase{"send_err", i}, faultCase{"send_stall", i})
+	}
+	for i := 1; i <= tr.nRecv; i++ {
+		cases = append(cases, faultCase{"recv_err", i}, faultCase{"recv_eof", i})
+	}
+	steps := base.Res.Steps
+	stride := 1
+	if steps > 40 {
+		stride = steps / 40
+	}
+	for j := 1; j <= steps; j += stride {
+		cases = append(cases, faultCase{"close", j}, faultCase{"close2", j}, faultCase{"cancel", j})
+	}
+	total := len(cases)
+	if len(cases) > 300 {
+		k := (len(cases) + 299) / 300
+		var kept []faultCase
+		for i, c := range cases {
+			if i%k == 0 {
+				kept = append(kept, c)
+			}
+		}
+		cases = kept
+	}
+	agg := &worker.Outcome{Res: base.Res, Probes: map[string]int{}, Faults: map[string]int{}, NonTrivial: true, Key: base.Key}
+	if total != len(cases) {
+		agg.Probes["sweep_scenarios_thinned"]++
+	}
+	for k, v := range base.Probes {
+		agg.Probes[k] += v
+	}
+	fired := 0
+	for _, fc := range cases {
+		oc, _ := singleB(t, simrt.ReplayTape(recs), opt, fc)
+		agg.Ops++
+		for k, v := range oc.Faults {
+			agg.Faults[k] += v
+			if k == fc.kind || (k == "close" && fc.kind == "close2") {
+				fired++
+			}
+		}
+		for k, v := range oc.Probes {
+			agg.Probes[k] += v
+		}
+		if oc.Verdict != nil {
+			oc.ReplayTape = recs
+			oc.ReplayParams = map[string]string{"topo": "B", "fault": fc.String()}
+			oc.Pattern = oc.Pattern + " fault=" + fc.kind
+			oc.Sample = map[string]interface{}{"scenario": b0.desc, "fault": fc.String()}
+			return oc
+		}
+		agg.Key = agg.Key*1099511628211 ^ oc.Key
+	}
+	agg.Probes["sweep_cases"] += len(cases)
+	agg.Probes["sweep_cases_fault_fired"] += fired
+	agg.Probes["sweep_scenarios"]++
+	agg.Probes["sweep_scenarios_two_conns"]++
+	agg.Sample = map[string]interface{}{"scenario": b0.desc, "transport_ops_L": map[string]int{"new": tr.nNew, "send": tr.nSend, "recv": tr.nRecv}, "steps": steps, "sweep_cases": len(cases), "cases_in_which_the_fault_fired": fired}
+	return agg
 }
